@@ -381,6 +381,52 @@ func init() {
 				c.check(statOK, fmt.Sprintf("cache hit#%d requires a successful Stat", n), p.instrPos(r), "a failed Stat is a miss", "a failed Stat can still lead to a cache hit: a deleted or unreadable file keeps being served")
 			}
 			c.check(n > 0, "cache: hit path exists", p.pos(fn.Pos()), fmt.Sprintf("%d hit return(s)", n), "no cache hit path found")
+			// whoever else reads the content of a published cache entry is bound by the same validation
+			entryT := p.cacheEntryTypes()
+			m := 0
+			for _, f := range p.Funcs {
+				if p.Dropped[f] {
+					continue
+				}
+				eachInstr(f, func(in ssa.Instruction) {
+					ld, ok := in.(*ssa.UnOp)
+					if !ok || ld.Op != token.MUL {
+						return
+					}
+					fa, ok := ld.X.(*ssa.FieldAddr)
+					if !ok {
+						return
+					}
+					pt, ok := fa.X.Type().Underlying().(*types.Pointer)
+					if !ok {
+						return
+					}
+					nt, ok := pt.Elem().(*types.Named)
+					if !ok || !entryT[nt] || isNamed(ld.Type(), "time", "Time") {
+						return
+					}
+					published := false
+					for _, o := range p.origins(fa.X, OriginOpts{}) {
+						if _, fresh := o.(*ssa.Alloc); !fresh {
+							published = true
+						}
+					}
+					if !published {
+						return
+					}
+					m++
+					valid := everyPathCrosses(ld.Block(), func(cnd ssa.Value, want bool) bool {
+						cl, isCall := cnd.(*ssa.Call)
+						if !isCall || !want {
+							return false
+						}
+						n := calleeName(&cl.Call)
+						return n == "(time.Time).Equal" || n == "(time.Time).IsZero"
+					})
+					c.check(valid, fmt.Sprintf("%s: read of cached %s.%s#%d validated", shortName(f), nt.Obj().Name(), fieldName(fa.X.Type(), fa.Field), m), p.instrPos(ld), "only after Time.Equal(stored, current)",
+						"the content of a cache entry is read without comparing its stored mtime with the file's current one: after an edit this reader still sees the previous revision (while validated readers see the new one)")
+				})
+			}
 		},
 	})
 
@@ -389,17 +435,7 @@ func init() {
 		Doc: "published cache entries are immutable: fields of the structs stored in mutex-guarded cache maps are written only while the struct is being constructed (fresh allocation), never on an entry obtained from the map — readers use the entry after releasing the read lock",
 		Run: func(p *Prog, c *Ctx) {
 			// entry struct types: element types of guarded maps
-			entryT := map[*types.Named]bool{}
-			for _, a := range p.collectSharedAccesses() {
-				if mu, ok := a.at.(*ssa.MapUpdate); ok {
-					t := mu.Value.Type()
-					if pt, ok := t.Underlying().(*types.Pointer); ok {
-						if nt, ok := pt.Elem().(*types.Named); ok && inModuleType(nt) {
-							entryT[nt] = true
-						}
-					}
-				}
-			}
+			entryT := p.cacheEntryTypes()
 			n := 0
 			for _, fn := range p.Funcs {
 				eachInstr(fn, func(in ssa.Instruction) {
@@ -1022,4 +1058,20 @@ func init() {
 			c.check(eq > 0, "resolveStruct: JSON tag compared by equality", p.pos(fn.Pos()), fmt.Sprintf("%d equality test(s)", eq), "the JSON tag is no longer compared with the requested name by equality")
 		},
 	})
+}
+
+// cacheEntryTypes returns the struct types whose pointers are stored in mutex-guarded cache maps.
+func (p *Prog) cacheEntryTypes() map[*types.Named]bool {
+	entryT := map[*types.Named]bool{}
+	for _, a := range p.collectSharedAccesses() {
+		if mu, ok := a.at.(*ssa.MapUpdate); ok {
+			t := mu.Value.Type()
+			if pt, ok := t.Underlying().(*types.Pointer); ok {
+				if nt, ok := pt.Elem().(*types.Named); ok && inModuleType(nt) {
+					entryT[nt] = true
+				}
+			}
+		}
+	}
+	return entryT
 }
